@@ -423,4 +423,50 @@ func runPxStream(c *hx.Ctx) {
 	for i := 0; i < n; i++ {
 		emitPx(c, genPxCase(c))
 	}
+	if c.Thorough() {
+		pxExhaustiveSmall(c)
+	}
+}
+
+// pxExhaustiveSmall (thorough tier): over one small host set, every route metadata in {none, a=1, a=1;b=1, b=2}, every
+// ordered pair and a sample of triples of per-request criteria from a fixed menu, every policy, both build modes, route
+// and weighted-cluster placement. The harness processes of a thorough run split the sequences among themselves by seed.
+func pxExhaustiveSmall(c *hx.Ctx) {
+	h := func(name string, kv ...string) hostSpec {
+		hs := hostSpec{name: name, healthy: true}
+		for i := 0; i+1 < len(kv); i += 2 {
+			hs.meta = append(hs.meta, pair{kv[i], kv[i+1]})
+		}
+		return hs
+	}
+	hosts := []hostSpec{h("h0", "a", "1", "b", "1"), h("h1", "a", "1", "b", "2"), h("h2", "a", "2", "b", "1"), h("h3", "b", "2"), h("h4", "a", "2")}
+	routes := [][]pair{nil, {{"a", "1"}}, {{"a", "1"}, {"b", "1"}}, {{"b", "2"}}}
+	menu := []pxReq{{}, {set: true}, {set: true, meta: []pair{{"a", "1"}}}, {set: true, meta: []pair{{"a", "2"}}},
+		{set: true, meta: []pair{{"b", "1"}}}, {set: true, meta: []pair{{"b", "2"}}}, {set: true, meta: []pair{{"a", "2"}, {"b", "1"}}},
+		{set: true, meta: []pair{{"c", "1"}}}}
+	part, idx := int(c.Seed%8), 0
+	for policy := 0; policy <= 2; policy++ {
+		var dflt []pair
+		if policy == 2 {
+			dflt = []pair{{"b", "2"}}
+		}
+		cfg := &config{policy: policy, dflt: dflt, selectors: [][]string{{"a"}, {"b", "a"}}, hosts: hosts}
+		for _, route := range routes {
+			for _, r1 := range menu {
+				for _, r2 := range menu {
+					idx++
+					if idx%8 != part {
+						continue
+					}
+					j := idx / 8
+					reqs := []pxReq{r1, r2}
+					if j%3 == 0 {
+						reqs = append(reqs, menu[(j/3)%len(menu)], pxReq{})
+					}
+					emitPx(c, &pxCase{cfg: cfg, pre: j%2 == 0, weighted: j%5 == 0, route: route, reqs: reqs})
+					c.Count("px.exhaustive-small")
+				}
+			}
+		}
+	}
 }
